@@ -323,4 +323,5 @@ func (pr *PausedRun) Wait(timeout time.Duration) *ToolResult {
 
 // HostileEnvs are environments that must not change what the command-line tools do.
 var HostileEnvs = [][]string{nil, {"LANG=tr_TR.UTF-8", "LC_ALL=tr_TR.UTF-8"}, {"LC_ALL=C", "LANG=C"}, {"TZ=Pacific/Kiritimati"}, {"TMPDIR=/nonexistent-tmp"},
-	{"GOGC=1"}, {"GOMAXPROCS=1"}, {"GODEBUG=asyncpreemptoff=1"}, {"LANG=ja_JP.eucJP", "LC_CTYPE=ja_JP.eucJP"}, {"COLUMNS=1", "LINES=1", "TERM=dumb"}, {"USER=nobody", "LOGNAME=nobody"}}
+	{"GOGC=1"}, {"GOMAXPROCS=1"}, {"GODEBUG=asyncpreemptoff=1"}, {"LANG=ja_JP.eucJP", "LC_CTYPE=ja_JP.eucJP"}, {"COLUMNS=1", "LINES=1", "TERM=dumb"}, {"USER=nobody", "LOGNAME=nobody"},
+	{"TMPDIR=/dev/shm"}} // a temporary directory on another file system than the files the tools are asked to write
